@@ -507,6 +507,13 @@ struct Runner
         out().put(l);
     }
 
+    void threw_raw(const char* f, const RawFault& e)
+    {
+        Line l("Threw");
+        l.str("f", f).str("x", "fault").i("tag", e.tag).i("t", st.count);
+        out().put(l);
+    }
+
     void construct()
     {
         {
@@ -569,6 +576,11 @@ struct Runner
                 cur_sv = -1;
                 threw_line("init", e);
             }
+            catch (const RawFault& e)
+            {
+                cur_sv = -1;
+                threw_raw("init", e);
+            }
             obs("init");
             return;
         }
@@ -597,6 +609,10 @@ struct Runner
             {
                 threw_line("compute", e);
             }
+            catch (const RawFault& e)
+            {
+                threw_raw("compute", e);
+            }
             obs("compute");
             if (ok)
                 measure_pairs();
@@ -608,6 +624,7 @@ struct Runner
             ll k = atoll(tok.c_str() + 1);
             fst->fault_at = k > 0 ? fst->total + k : 0;
             fst->fault_tag = k;
+            fst->fault_kind = (int) d.i("fkind", 0);
             fst->thrown_since_arm = 0;
             Line l("Arm");
             l.i("k", k);
